@@ -80,7 +80,8 @@ public:
     {
         // the magic number used to identify the BMP file:
         // 0x42 0x4D (ASCII code points for B and M)
-        if( _io_dev.read_uint16() == 0x424D )
+        // (read_uint16 is little-endian: 'B' is the low byte)
+        if( _io_dev.read_uint16() != 0x4D42 )
         {
             io_error( "Wrong magic number for bmp file." );
         }
